@@ -308,3 +308,50 @@ func slowSubCase(w *bufio.Writer, r *prng.R, id string) {
 	close(sr.done)
 	fmt.Fprintf(w, "RAW\t%s\t%s\t%s\n", id, strings.Join(prog, " "), joinSubs([]*subRec{sr}, n))
 }
+
+// slowLiveRaw: a subscriber of the bare machine whose consumer pauses 150-400 ms after every value
+// (live subscription; the documented tolerance is the 5 s broadcast timeout): two or three changes are
+// made within its first pause, further ones while it catches up; the subscription is cancelled only after
+// it has drained.  Every change must arrive, in order.
+func slowLiveRaw(w *bufio.Writer, r *prng.R, id string) {
+	h := slog.NewTextHandler(io.Discard, &slog.HandlerOptions{Level: slog.LevelError})
+	fm, err := finitestate.NewTypicalFSM(h)
+	if err != nil {
+		panic(err)
+	}
+	m := rawMachine{fm}
+	var okCount atomic.Int64
+	count := func() int { return int(okCount.Load()) }
+	var prog []string
+	walk := []string{"Booting", "Running", "Reloading", "Running", "Stopping", "Stopped", "New"}
+	pos := 0
+	tr := func() {
+		to := walk[pos%len(walk)]
+		if e := fm.Transition(to); e == nil {
+			pos++
+			okCount.Add(1)
+			prog = append(prog, fmt.Sprintf("t%d=1", code(to)))
+		} else {
+			prog = append(prog, fmt.Sprintf("t%d=0", code(to)))
+		}
+	}
+	for i := r.Intn(3); i > 0; i-- {
+		tr()
+	}
+	sr := subscribe(m, count, count, slowPauseUS(r))
+	time.Sleep(2 * time.Millisecond) // the consumer has taken s0 and is pausing
+	for i := 2 + r.Intn(2); i > 0; i-- {
+		tr() // pile up behind the pause (the third waits for room in the pipeline: below the pause)
+	}
+	if r.Bool() {
+		time.Sleep(time.Duration(sr.delayUS/2) * time.Microsecond)
+		tr()
+	}
+	sr.drainWait(8 * time.Second)
+	sr.cancelNow(count, count)
+	sr.wait(2 * time.Second)
+	sr.mu.Lock()
+	sr.uhi = count()
+	sr.mu.Unlock()
+	fmt.Fprintf(w, "RAW\t%s\t%s\t%s\n", id, strings.Join(prog, " "), joinSubs([]*subRec{sr}, count()))
+}
